@@ -44,7 +44,10 @@ def _module_by_path(prog, path):
 
 def _apply(prog, v):
     m = _module_by_path(prog, v.path)
-    tree = ast.parse(m.pysource)
+    import warnings
+    with warnings.catch_warnings():
+        warnings.simplefilter("ignore")
+        tree = ast.parse(m.pysource)
     set_parents(tree)
     ok = v.edit(tree)
     if not ok:
